@@ -11,5 +11,6 @@ import TemporalModel.Props.C09
 import TemporalModel.Props.C10
 import TemporalModel.Props.C13
 import TemporalModel.Props.C14
+import TemporalModel.Props.C15
 import TemporalModel.Props.C17
 import TemporalModel.Props.C18
